@@ -473,12 +473,12 @@ def lexSoyDocParamName (l : Lexer) : Option Lexer :=
     match scanWhile sdpName (by decide) l1.backup.ignore with
     | none => none
     | some (r, l2) =>
-      -- l.pos--; l.emit(itemIdent)
-      match Lexer.emit { l2 with pos := l2.pos - 1 } .tIdent with
+      -- back up over the delimiter (eof has no width): `if r != eof { l.pos-- }`; l.emit(itemIdent)
+      match Lexer.emit (if r ≠ eof then l2.addPos (-1) else l2) .tIdent with
       | none => none
       | some l3 =>
         -- don't skip newlines. the outer routine needs to know about it
-        some (if isSpace r || r == eof then { l3 with pos := l3.pos + 1 } else l3).ignore
+        some (if isSpace r then l3.addPos 1 else l3).ignore
 
 /-- `lexSoyDocParam`: `l.pos` is at "@param" -/
 def lexSoyDocParam (l : Lexer) : Option Lexer :=
@@ -522,12 +522,18 @@ theorem lexSoyDocParamName_spec {l l' : Lexer} (h : lexSoyDocParamName l = some 
         have hl1 : l1.pos ≤ (l.input.size : Int) := s1.2.2.1 hle
         have hl2 : l2.pos ≤ (l.input.size : Int) := by
           have := s2.2.2.1; rw [s1.1] at this; apply this; omega
-        have hp3 : l3.pos = l2.pos - 1 := by
-          apply s3.2.1; rw [e1]; omega
+        have hp3 : l2.pos - 1 ≤ l3.pos := by
+          split at s3
+          · have := s3.2.1 (by simp only [Lexer.addPos]; rw [e1]; omega)
+            simp only [Lexer.addPos] at this; omega
+          · have := s3.2.1 (by rw [e1]; omega)
+            omega
+        have hi3 : l3.input = l.input := by
+          split at s3 <;> (try simp only [Lexer.addPos] at s3) <;> exact s3.1.trans e1
         subst h
         refine ⟨?_, ?_⟩
-        · split <;> simp only [Lexer.ignore, s3.1, e1]
-        · split <;> simp only [Lexer.ignore] <;> omega
+        · split <;> simp only [Lexer.ignore, Lexer.addPos, hi3]
+        · split <;> simp only [Lexer.ignore, Lexer.addPos] <;> omega
 
 theorem lexSoyDocParam_spec {l l' : Lexer} (h : lexSoyDocParam l = some l')
     (hle : l.pos + 6 ≤ l.len) : l'.input = l.input ∧ l.pos ≤ l'.pos := by
